@@ -291,6 +291,17 @@ func main() {
 			base = context.DeadlineExceeded
 		case "arbitrary":
 			base = fmt.Errorf("disk on fire #%d", r.Intn(1000))
+		case "lookalike": // not a DHT error at the origin (errors.Is sees nothing): only its text ends like one
+			switch r.Intn(4) {
+			case 0:
+				base = fmt.Errorf("storage backend: %v", chord.ErrKVStaleOwnership)
+			case 1:
+				base = errors.New("upstream replied: " + context.DeadlineExceeded.Error())
+			case 2:
+				base = fmt.Errorf("peer said: %v", chord.ErrKVPendingTransfer)
+			default:
+				base = fmt.Errorf("joining: %s", chord.ErrJoinInvalidState.Error())
+			}
 		default:
 			var ok bool
 			if base, ok = defined[c.Err]; !ok {
